@@ -247,8 +247,8 @@ def prog_lookback(rng, **kw):
     lookback windows, lags, dated weights / signals / statistics (C04, C10,
     C11, C14, C15 in situ)."""
     kw.setdefault("T", rng.randint(10, 14))
-    sel = rng.choice(["all", "hasdata", "momentum", "setstat", "where", "these", "stat_n", "random"])
-    wg = rng.choice(["equal", "invvol", "erc", "target", "equal_tv", "equal_ld", "equal_lw", "random", "equal", "invvol"])
+    sel = rng.choice(["all", "hasdata", "momentum", "setstat", "where", "these", "stat_n", "random", "regex"])
+    wg = rng.choice(["equal", "invvol", "erc", "target", "equal_tv", "equal_ld", "equal_lw", "random", "equal", "invvol", "equal_sw"])
     # a dated target / statistic names tickers whatever their price: no late listings there
     late_ok = wg != "target" and sel != "setstat"
     prog = base_prog(rng, late=late_ok and rng.random() < 0.4, **kw)
@@ -289,6 +289,9 @@ def prog_lookback(rng, **kw):
         st.append(["SelectWhere", {"signal": "signal"}])
     elif sel == "these":
         st.append(["SelectThese", {"tickers": rng.sample(cols, rng.randint(1, len(cols)))}])
+    elif sel == "regex":
+        st.append(["SelectAll", {}])
+        st.append(["SelectRegex", {"regex": rng.choice(["^[ab]", "[^a]", "b|c", "^.$"])}])
     else:
         st.append(["SelectAll", {}])
         st.append(["SelectRandomly", {"n": rng.choice([1, 2])}])
@@ -315,9 +318,16 @@ def prog_lookback(rng, **kw):
     elif wg == "equal_lw":
         st.append(["WeighEqually", {}])
         st.append(["LimitWeights", {"limit": rng.choice([0.4, 0.6])}])
+    elif wg == "equal_sw":
+        st.append(["WeighEqually", {}])
+        st.append(["ScaleWeights", {"scale": rng.choice([0.5, 1.5, -1.0])}])
     else:
         st.append(["WeighRandomly", {}])
     st.append(rng.choice([["Rebalance", {}], ["Rebalance", {}], ["RebalanceOverTime", {"n": 3}]]))
+    if sch and rng.random() < 0.25:
+        # the scheduler wrapped in the combinators
+        other = rng.choice([["RunOnce", {}], ["RunMonthly", {}], ["RunEveryNPeriods", {"n": 3}]])
+        st[0] = rng.choice([["Or", {"algos": [st[0], other]}], ["Not", {"algo": other}]])
     prog["tree"] = {"name": "r", "algos": st, "children": []}
     prog["family"] = "lookback"
     return prog
@@ -389,6 +399,29 @@ def prog_fi(rng, **kw):
     return prog
 
 
+def prog_replay(rng, **kw):
+    """A blotter of executed trades replayed through ReplayTransactions (custom
+    prices, several trades per date and ticker, timestamps inside the day)."""
+    T = rng.randint(6, 10)
+    cols = TICKERS[: rng.choice([2, 3])]
+    prog = {"T": T, "cols": list(cols), "px": {c: walk_prices(rng, T) for c in cols}, "extra": {"bidoffer": {}},
+            "bt": {"capital": rng.choice([10000, 50000]), "integer": rng.random() < 0.5, "comm": COMMS[rng.choice(["zero", "zero", "fix", "prop"])]}}
+    rows = []
+    for r in range(T):
+        for _ in range(rng.choice([0, 0, 1, 1, 2, 3])):
+            c = rng.choice(cols)
+            p_ = prog["px"][c][r]
+            rows.append([r, c, rng.choice([10, 25, -10, -5, 40, 100]), p_ + rng.choice([0, 0, 1, -1, 2]), rng.choice([0, 0, 3, 6])])
+    rows.sort(key=lambda x: (x[0], -x[4]))
+    prog["extra"]["blotter"] = {"__tx__": True, "rows": rows}
+    st = [["ReplayTransactions", {"transactions": "blotter"}]]
+    if rng.random() < 0.3:
+        st.insert(0, ["CapitalFlow", {"amount": rng.choice([1000, -500])}])
+    prog["tree"] = {"name": "r", "algos": st, "children": [{"sec": c, "kind": "sec", "mult": 1} for c in cols]}
+    prog["family"] = "replay"
+    return prog
+
+
 def prog_risk(rng, **kw):
     """Risk-hedging strategies: positions in a..b, unit risks per measure published
     in frames of their own (one may carry history from before the price data, so
@@ -442,7 +475,7 @@ def prog_cashstep(rng, **kw):
     return prog
 
 
-FAMILIES = {"risk": prog_risk, "cashstep": prog_cashstep, "fi": prog_fi, "nested09": prog_nested09, "lookback": prog_lookback, "flat": prog_flat, "nested": prog_nested, "bankrupt": prog_bankrupt, "flows": prog_flows}
+FAMILIES = {"replay": prog_replay, "risk": prog_risk, "cashstep": prog_cashstep, "fi": prog_fi, "nested09": prog_nested09, "lookback": prog_lookback, "flat": prog_flat, "nested": prog_nested, "bankrupt": prog_bankrupt, "flows": prog_flows}
 
 
 def prog_by_family(seed, i, family):
